@@ -750,6 +750,41 @@ package sipsp
 //@   ensures[C15] "spec-skip-monotone": shortSpec(u1, buf1, u2, buf2, flags) ==> shortSpec(u1, buf1, u2, buf2, flags|URICmpSkipScheme) &&
 //@                 shortSpec(u1, buf1, u2, buf2, flags|URICmpSkipPort) && shortSpec(u1, buf1, u2, buf2, flags|URICmpSkipUser) && shortSpec(u1, buf1, u2, buf2, flags|URICmpSkipPass)
 
+// The list comparisons: safety, termination and the clauses of the property that need no quantifier over both
+// lists. The within-buffer fact is restated in the loops as a fact about the elements from the loop index on, so
+// that the index is a range bound (the engine instantiates quantified hypotheses at range bounds). The
+// pairwise-match clause does not discharge (see /verif/wip/lsteq-pairwise.txt).
+
+//@ func URIParamsLstEq(l1, buf1, l2, buf2) (r)
+//@   requires l1 != nil && l2 != nil && bufOK(buf1) && bufOK(buf2) && l1.N >= 0 && l2.N >= 0
+//@   requires forall(k, 0, pno(l1), within(l1.Params[k].Param.Name, len(buf1)) && within(l1.Params[k].Param.Val, len(buf1)))
+//@   requires forall(k, 0, pno(l2), within(l2.Params[k].Param.Name, len(buf2)) && within(l2.Params[k].Param.Val, len(buf2)))
+//@   loop 0 "for i := 0; i < l1.PNo(); i++"
+//@     invariant 0 <= i && i <= pno(l1)
+//@     invariant forall(k, i, pno(l1), within(l1.Params[k].Param.Name, len(buf1)) && within(l1.Params[k].Param.Val, len(buf1)))
+//@     decreases pno(l1) - i
+//@   loop 1 "for j := 0; j < l2.PNo(); j++"
+//@     invariant 0 <= i && i < pno(l1) && 0 <= j && j <= pno(l2)
+//@     invariant forall(k, i, pno(l1), within(l1.Params[k].Param.Name, len(buf1)) && within(l1.Params[k].Param.Val, len(buf1)))
+//@     invariant forall(k, j, pno(l2), within(l2.Params[k].Param.Name, len(buf2)) && within(l2.Params[k].Param.Val, len(buf2)))
+//@     decreases pno(l2) - j
+//@   ensures[C15] "params-needed-in-both-or-neither": r ==> l1.Types&(URIParamUserF|URIParamTTLF|URIParamMethodF|URIParamMaddrF) == l2.Types&(URIParamUserF|URIParamTTLF|URIParamMethodF|URIParamMaddrF)
+
+//@ func URIHdrsLstEq(l1, buf1, l2, buf2) (r)
+//@   requires l1 != nil && l2 != nil && bufOK(buf1) && bufOK(buf2) && l1.N >= 0 && l2.N >= 0
+//@   requires forall(k, 0, hno(l1), within(l1.Hdrs[k].Name, len(buf1)) && within(l1.Hdrs[k].Val, len(buf1)))
+//@   requires forall(k, 0, hno(l2), within(l2.Hdrs[k].Name, len(buf2)) && within(l2.Hdrs[k].Val, len(buf2)))
+//@   loop 0 "for i := 0; i < l1.HNo(); i++"
+//@     invariant 0 <= i && i <= hno(l1)
+//@     invariant forall(k, i, hno(l1), within(l1.Hdrs[k].Name, len(buf1)) && within(l1.Hdrs[k].Val, len(buf1)))
+//@     decreases hno(l1) - i
+//@   loop 1 "for j := 0; j < l2.HNo(); j++"
+//@     invariant 0 <= i && i < hno(l1) && 0 <= j && j <= hno(l2)
+//@     invariant forall(k, i, hno(l1), within(l1.Hdrs[k].Name, len(buf1)) && within(l1.Hdrs[k].Val, len(buf1)))
+//@     invariant forall(k, j, hno(l2), within(l2.Hdrs[k].Name, len(buf2)) && within(l2.Hdrs[k].Val, len(buf2)))
+//@     decreases hno(l2) - j
+//@   ensures[C15] "hdrs-same-count": r ==> hno(l1) == hno(l2)
+
 //@ func URIParamsEq(buf1, offs1, buf2, offs2) (r, err)
 //@   trusted
 //@   requires bufOK(buf1) && bufOK(buf2) && 0 <= offs1 && offs1 <= len(buf1) && 0 <= offs2 && offs2 <= len(buf2)
